@@ -430,6 +430,66 @@ func genC16(tier string, rng *Rng) {
 		c16stats["used-object"]++
 		runSeqOn(used, W, H, ops)
 	}
+	// 9. pairs of shape operations with the inversion flag and the colour varied independently around
+	// each (2^4 x 9 x 9 on two canvases): requested colour and EFFECTIVE colour are different things
+	// (seed C16-12: a "canvas still blank" shortcut in FillRect reset by the requested colour only -
+	// invert, draw with colour false, un-invert, clear: the clear is skipped)
+	for _, dim := range [][2]int{{16, 8}, {21, 5}} {
+		W, H := dim[0], dim[1]
+		shape := func(k int, c bool, second bool) mop {
+			if second { // the second shape covers the first one's footprint
+				switch k {
+				case 0:
+					return opPixel(3, 2, c)
+				case 1:
+					return opHL(-1, 2, W+3, c)
+				case 2:
+					return opVL(3, -1, H+2, c)
+				case 3:
+					return opFR(0, 0, W, H, c)
+				case 4:
+					return opFR(2, 1, 9, 3, c)
+				case 5:
+					return opRR(1, 0, W-2, H, 2, c)
+				case 6:
+					return opFRR(0, 0, W, H, 2, c)
+				case 7:
+					return opCH(5, 3, 3, 15, c)
+				default:
+					return opBM(0, 0, []byte{0xff, 0xff, 0xff, 0xff, 0xff, 0xff, 0xff, 0xff}, 16, 4, c, false, true)
+				}
+			}
+			switch k {
+			case 0:
+				return opPixel(3, 2, c)
+			case 1:
+				return opHL(1, 2, 7, c)
+			case 2:
+				return opVL(3, 0, 4, c)
+			case 3:
+				return opFR(0, 0, W, H, c)
+			case 4:
+				return opFR(2, 1, 5, 2, c)
+			case 5:
+				return opRR(1, 1, 8, 4, 1, c)
+			case 6:
+				return opFRR(1, 1, 8, 4, 1, c)
+			case 7:
+				return opCH(4, 2, 2, 15, c)
+			default:
+				return opBM(1, 1, []byte{0xa5, 0x5a, 0xff}, 8, 3, c, false, false)
+			}
+		}
+		for m := 0; m < 16; m++ {
+			for k1 := 0; k1 < 9; k1++ {
+				for k2 := 0; k2 < 9; k2++ {
+					ops := []mop{opInv(m&1 != 0), shape(k1, m&2 != 0, false), opInv(m&4 != 0), shape(k2, m&8 != 0, true)}
+					c16stats["inv-colour-pairs"]++
+					runSeq(W, H, ops)
+				}
+			}
+		}
+	}
 	meta(map[string]interface{}{"property": "C16", "op_histogram": c16stats})
 }
 
